@@ -9,12 +9,8 @@
 (* Theorems (MC_Frames, exhaustive over the four real dimensions): the pieces cover exactly the     *)
 (* values of the wrapping-contains reading the evaluator uses for the range (Selectors.tla WrapIn), *)
 (* they are proper and increasing, and the way back returns ranges with the same values.            *)
-EXTENDS Integers, Sequences, FiniteSets
+EXTENDS FramesCore, FiniteSets
 
-Rng(s, e) == [s |-> s, e |-> e]
-Strict(a, b) == Rng(a, b + 1)
-Split(r, Lo, Hi) == IF r.s >= r.e THEN <<Rng(Lo, r.e), Rng(r.s, Hi + 1)>> ELSE <<r>>
-Pieces(a, b, Lo, Hi) == Split(Strict(a, b), Lo, Hi)
 \* try_from_iterator: all ranges of a selector, the whole dimension when there is none
 RECURSIVE Flatten(_)
 Flatten(q) == IF q = <<>> THEN <<>> ELSE q[1] \o Flatten(Tail(q))
@@ -25,9 +21,6 @@ Inclusive(r) == [a |-> r.s, b |-> r.e - 1]
 IntoSelector(pieces, Lo, Hi) ==
   LET kept == SelectSeq(pieces, LAMBDA r : r # Rng(Lo, Hi + 1))
   IN [i \in DOMAIN kept |-> Inclusive(kept[i])]
-
-WrapContains(a, b, x) == IF a <= b THEN a <= x /\ x <= b ELSE x >= a \/ x <= b
-InPieces(ps, x) == \E i \in DOMAIN ps : ps[i].s <= x /\ x < ps[i].e
 
 Cover(Lo, Hi) == \A a \in Lo..Hi, b \in Lo..Hi, x \in Lo..Hi : InPieces(Pieces(a, b, Lo, Hi), x) <=> WrapContains(a, b, x)
 Proper(Lo, Hi) == \A a \in Lo..Hi, b \in Lo..Hi :
